@@ -508,6 +508,20 @@ func (c *FnCtx) trCall(e *Expr, env *Env) (Term, types.Type) {
 			return app("to_int", a), tInt
 		}
 		return a, tInt
+	case "upd":
+		m, mt := arg(0)
+		k, _ := arg(1)
+		v, _ := arg(2)
+		return app("store", m, k, v), mt
+	case "heap":
+		if len(e.Args) != 1 || e.Args[0].Op != "str" {
+			c.specFail("heap(\"elemtype\")")
+		}
+		ty, err := c.g.parseSpecType(e.Args[0].Name)
+		if err != nil {
+			c.specFail("%v", err)
+		}
+		return c.get(env.st, c.elemComp(ty)), &MathArr{tInt, &MathArr{tInt, ty}}
 	case "alloc":
 		return c.get(env.st, c.comp("$alloc", "Int")), tInt
 	case "typeis":
